@@ -59,6 +59,8 @@ fn main() {
         #[cfg(feature = "model")]
         "miriprep" => miriprep(&args),
         #[cfg(feature = "model")]
+        "fuzzseeds" => fuzzseeds(&args),
+        #[cfg(feature = "model")]
         "c03" => c03::run(&args),
         #[cfg(feature = "model")]
         "c03case" => c03::run_case_file(&args),
@@ -103,6 +105,73 @@ fn genembedded() -> i32 {
     std::fs::write(format!("{dir}good_frame.zst"), &g).unwrap();
     std::fs::write(format!("{dir}history_frame.zst"), &h).unwrap();
     println!("good_frame.zst {} bytes, history_frame.zst {} bytes", g.len(), h.len());
+    0
+}
+
+/// write the seed corpus of the libFuzzer targets: --out <dir> gets decode/ and ring/
+#[cfg(feature = "model")]
+fn fuzzseeds(args: &common::Args) -> i32 {
+    use wlcore::hostile::join_fuzz_input;
+    let Some(out) = &args.out else { return 2 };
+    let (ddir, rdir) = (format!("{out}/decode"), format!("{out}/ring"));
+    let _ = std::fs::create_dir_all(&ddir);
+    let _ = std::fs::create_dir_all(&rdir);
+    let mut n = 0usize;
+    let mut put = |bytes: Vec<u8>| {
+        let _ = std::fs::write(format!("{ddir}/seed_{n:05}"), bytes);
+        n += 1;
+    };
+    let mut r = common::Rng::for_case(args.seed, 78, 0);
+    let mut k = 0usize;
+    for c in frames::synth_matrix().iter() {
+        if c.bytes.len() <= 4000 && c.dict.is_none() {
+            k += 1;
+            put(join_fuzz_input(k % 9, &[(k % 3) as u8], &c.bytes));
+        }
+        if let Some(d) = &c.dict {
+            if c.bytes.len() <= 4000 && d.len() <= 8000 {
+                put(join_fuzz_input(9, d, &c.bytes));
+                put(join_fuzz_input(10, &[1], d));
+            }
+        }
+    }
+    for (_, p) in zspec::synth::hostile_matrix() {
+        let b = zspec::synth::synthesise(&p).bytes;
+        if b.len() <= 4000 {
+            k += 1;
+            put(join_fuzz_input(k % 9, &[(k % 3) as u8], &b));
+        }
+    }
+    for _ in 0..120 {
+        if let Some(c) = frames::synth_random(&mut r, 3000) {
+            if c.bytes.len() <= 3000 && c.dict.is_none() {
+                k += 1;
+                put(join_fuzz_input(k % 9, &[(k % 3) as u8], &c.bytes));
+            }
+        }
+    }
+    for _ in 0..80 {
+        let c = frames::libzstd_frame(&mut r, 6000);
+        if c.bytes.len() <= 3000 {
+            k += 1;
+            put(join_fuzz_input(k % 9, &[(k % 3) as u8], &c.bytes));
+        }
+    }
+    if let Ok(raw) = std::fs::read("/repo/ruzstd/dict_tests/dictionary") {
+        if let Ok(f) = refz::compress(b"some text that wants a dictionary, some text", 3, &[], Some(&raw)) {
+            if raw.len() <= 65535 {
+                put(join_fuzz_input(9, &raw, &f));
+            }
+        }
+    }
+    for i in 0..24u64 {
+        let _ = std::fs::write(format!("{rdir}/seed_{i:03}"), {
+            let mut v = vec![(i % 3) as u8];
+            v.extend(r.bytes(40 + 20 * i as usize));
+            v
+        });
+    }
+    println!("fuzzseeds: {n} decode seeds, 24 ring seeds");
     0
 }
 
